@@ -16,7 +16,11 @@ CLAIMED = {
         text="Theorems (all histories, all keys, no bound): tree-level set/delete have exact map semantics (get_set, get_delete), "
              "every reachable trie is canonical (canon_run), the code-shaped lookup _traverse_from+_get returns the map model's "
              "value and never raises (run_getT_never_raises), bytes_to_nibbles is injective; D1 kept as a decide-witness about "
-             "the pinned _get. Tie: get() after every operation of generated histories (4 configurations) equals the model's.",
+             "the pinned _get. Through the executor and the database (C01World): for a history applied with all database traffic, "
+             "pruning bookkeeping and root updates (opSetDel), prune on or off, no set/delete ever raises (world_progress), the tree "
+             "is the tree-level history (world_tree) and get through the database returns the map model's value and never raises "
+             "(world_get), under the per-step run-level no-collision predicates. Batched application = flatten is C05. "
+             "Tie: get() after every operation of generated histories (4 configurations) equals the model's.",
         technique="Lean 4 proof (induction over histories on a tree model) + correspondence check of model vs code",
         design_ref="6/C01"),
     "C02": dict(
